@@ -59,6 +59,17 @@ def stepLogin (st : Store) (ws : List String) : Option (Store × String) :=
           let (s2, r) := step s1 (.chpw u a b num)
           some (s2, showOut r)
       | _, _, _, _, _, _, _ => some (st, "bad-op")
+  | ["parcheck", r, ps] =>
+      -- several users check their passwords at once: each answer is that of a login on the store as it is
+      match r.toNat? with
+      | some n =>
+        if n < 1 || n > 5000 then some (st, "bad-op") else
+        let pairs := (ps.splitOn ",").map (fun p => match p.splitOn ":" with
+          | [u, w] => (match parseHex u, parseHex w with | some u, some w => some (u, w) | _, _ => none)
+          | _ => none)
+        if pairs.length > 16 || pairs.any Option.isNone then some (st, "bad-op") else
+        some (st, ",".intercalate (pairs.filterMap (fun p => p.map (fun (u, w) => showOut (step st (.login u w)).2))))
+      | none => some (st, "bad-op")
   | ["stored", u] => match parseHex u with
       | some u => let (s, o) := step st (.stored u); some (s, showOut o)
       | none => some (st, "bad-op")
